@@ -2525,7 +2525,7 @@ def cmd_hostile(args):
             for c in MU.adversarial(rng, big=args.get("big", False)):
                 yield c
             # deep back-reference chains whose top level must be hashed (in a forked child: see below)
-            for depth in ([2000, 200000] if not args.get("big") else [2000, 200000, 400000]):
+            for depth in (2000, 200000):
                 yield "adversarial:ref-chain-hash:%d" % depth, MU.ref_chain((3, 8) if HOSTV != (3, 8) else (3, 4), depth)
             for c in MU.dropbox_streams(rng):
                 yield c
@@ -2598,6 +2598,9 @@ def cmd_hostile(args):
         risky_case = label.startswith("adversarial:ref-chain-hash")
 
         wd_s = [args.get("case_watchdog_s", 20)]
+        if os.environ.get("VERIF_TRACE_CASES"):
+            with open(os.environ["VERIF_TRACE_CASES"], "a") as _tf:
+                _tf.write("%s %d\n" % (label, len(data)))
 
         def one_case():
             before = set(os.listdir(workdir))
